@@ -761,3 +761,97 @@ Proof.
   - rewrite S2, S1. reflexivity.
   - exact (content_not_mark _ _ _ T2).
 Qed.
+
+(* ---- the heap stays well-formed under every Decode call (so heap_bound holds of every state a
+   Decoder can reach from init_state) -------------------------------------------------------------- *)
+
+Definition hbound (h : heap) (n : N) : Prop := forall id o, heap_get h id = Some o -> id < n.
+
+Lemma hbound_set : forall h n id o, hbound h n -> id < n -> hbound (heap_set h id o) n.
+Proof.
+  intros h n id o Hb Hi j o' G. destruct (N.eq_dec j id) as [->|Ne]; [exact Hi|].
+  rewrite heap_get_set_other in G by exact Ne. exact (Hb j o' G).
+Qed.
+
+Lemma hbound_mono : forall h n m, hbound h n -> n <= m -> hbound h m.
+Proof. intros h n m Hb L j o G. specialize (Hb j o G). lia. Qed.
+
+Lemma try_assign_bound : forall h n m k v h', hbound h n -> try_assign h m k v = Some h' -> hbound h' n.
+Proof.
+  intros h n m k v h' Hb H. unfold try_assign in H. destruct m; try discriminate.
+  - destruct (heap_get h id) as [[es|es]|] eqn:G; try discriminate. destruct (go_unhashable k); [discriminate|].
+    injection H as <-. apply hbound_set; [exact Hb|exact (Hb id _ G)].
+  - destruct (heap_get h id) as [[es|es]|] eqn:G; try discriminate.
+    destruct (dict_set choose_first k v es); [|discriminate]. injection H as <-.
+    apply hbound_set; [exact Hb|exact (Hb id _ G)].
+Qed.
+
+Lemma assign_pairs_bound : forall n m k items h h' b, (length items <= k)%nat -> hbound h n ->
+  assign_pairs h m items = (h', b) -> hbound h' n.
+Proof.
+  intros n m k. induction k as [|k IH]; intros items h h' b L Hb H.
+  - destruct items; [|cbn in L; lia]. cbn in H. injection H as <- _. exact Hb.
+  - destruct items as [|x [|y t]]; cbn in H; try (injection H as <- _; exact Hb).
+    destruct (try_assign h m x y) as [h1|] eqn:E; [|injection H as <- _; exact Hb].
+    eapply (IH t h1 h' b); [cbn in L; lia|eapply try_assign_bound; eassumption|exact H].
+Qed.
+
+Lemma handler_heap_bound : forall cfg op key insn st, hbound (d_heap st) (d_next st) ->
+  leaves (fun o => hbound (d_heap (st_of o)) (d_next (st_of o))) (handler cfg op key insn st).
+Proof.
+  intros cfg op key insn st Hb. destruct st as [stk mem heap next proto log lens stale].
+  cbn [d_heap d_next] in Hb.
+  destruct op; cbn [handler];
+    try unfold tuple_n, do_reduce, handle_ref, push_bytestring, memo_top, new_dict_obj.
+  all: repeat (cbn [handler set_memo set_stack set_heap set_proto push fresh add_log set_len cur_len
+                    d_stack d_memo d_heap d_next d_proto d_log d_lens d_stale fst snd st_of leaves ok fail];
+               match goal with
+               | |- forall _, _ => intro
+               | |- context [if c_pydict ?c then _ else _] => destruct (c_pydict c) eqn:?
+               | |- leaves _ PanicP => exact I
+               | |- leaves _ OOF => exact I
+               | |- leaves _ (if ?c then _ else _) => destruct c eqn:?
+               | |- leaves _ (match ?x with _ => _ end) => destruct x eqn:?
+               | |- leaves _ (let '(_, _) := ?x in _) => destruct x eqn:?
+               end).
+  all: cbn [leaves ok fail st_of d_next d_heap set_memo set_stack set_heap set_proto push add_log set_len fresh fst snd] in *.
+  all: try (destruct (c_strict cfg); cbn [push set_stack d_heap d_next]).
+  all: try exact I.
+  all: try assumption.
+  all: try (eapply hbound_mono; [eassumption|lia]).
+  all: try (apply hbound_set; [eapply hbound_mono; [eassumption|lia]|lia]).
+  all: try (eapply try_assign_bound; eassumption).
+  all: try (eapply assign_pairs_bound; [apply le_n| |eassumption]; try assumption;
+            apply hbound_set; [eapply hbound_mono; [eassumption|lia]|lia]).
+  all: try (eapply assign_pairs_bound; [apply le_n|eassumption|eassumption]).
+Qed.
+
+Lemma loop_heap_bound : forall fuel cfg i st inp, heap_bound st ->
+  match fst (run (decode_loop fuel cfg i st) inp) with
+  | Ok (_, st') => heap_bound st'
+  | _ => True
+  end.
+Proof.
+  induction fuel as [|f IH]; intros cfg i st inp Hb; [exact I|].
+  rewrite decode_loop_S. cbn [run]. destruct inp as [|key rest]; [exact I|].
+  destruct (opcode_of_byte key) as [op|]; [|cbn; exact Hb].
+  destruct (is_stop op).
+  - cbn. unfold pop_user. destruct (d_stack st) as [|v t]; [exact Hb|]. destruct (is_mark v); exact Hb.
+  - rewrite run_bind.
+    pose proof (handler_heap_bound cfg op key (i + 1) st Hb) as L.
+    destruct (run (handler cfg op key (i + 1) st) rest) as [r rest'] eqn:R.
+    destruct r as [o|e| |]; try exact I.
+    pose proof (leaves_run _ _ _ L _ _ _ R) as Ho.
+    destruct o as [st'|st' e]; cbn [st_of] in Ho; [apply IH; exact Ho|cbn; exact Ho].
+Qed.
+
+(* every state a Decoder reaches keeps its heap well-formed: whatever the input *)
+Theorem decode_heap_bound : forall cfg st inp r st' rest,
+  heap_bound st -> decode cfg st inp = ((r, st'), rest) -> heap_bound st'.
+Proof.
+  intros cfg st inp r st' rest Hb D. unfold decode in D.
+  assert (H0 : heap_bound (start_state st)) by exact Hb.
+  pose proof (loop_heap_bound (S (length inp)) cfg 0 (start_state st) inp H0) as L.
+  destruct (run (decode_loop (S (length inp)) cfg 0 (start_state st)) inp) as [r1 rest1].
+  cbn [fst] in L. destruct r1 as [[a s]|e| |]; inversion D; subst; try exact H0. exact L.
+Qed.
